@@ -13,7 +13,13 @@ pub fn coeff_vec(r: &mut Rng, len: usize, x: f64) -> (Vec<f64>, &'static str) {
             let sc = 10f64.powf(r.uniform(-30.0, -16.0));
             ((0..len).map(|_| if r.chance(0.2) { 0.0 } else { r.uniform(-9.0, 9.0) * sc }).collect(), "tiny_scale")
         }
-        12 => ((0..len).map(|_| f64::MAX * r.uniform(0.02, 1.0) * r.sign()).collect(), "near_overflow"),
+        12 => {
+            // one or two coefficients within a factor 50 of f64::MAX, the others ordinary (so that the products the
+            // operation under test forms with the *other* lanes stay finite)
+            let k1 = r.usize(0, len - 1);
+            let k2 = r.usize(0, len - 1);
+            ((0..len).map(|i| if i == k1 || (i == k2 && r.chance(0.3)) { f64::MAX * r.uniform(0.02, 1.0) * r.sign() } else { r.mixed(2.0) }).collect(), "near_overflow")
+        }
         0 => {
             let k = r.usize(0, len - 1);
             let c = if r.chance(0.5) { r.small_int(9).max(1.0) } else { r.mixed(6.0) };
